@@ -4,8 +4,11 @@
 // One real host pair per generated case (BasicHost and/or BlankHost on real swarms, real
 // upgrader Noise+yamux over in-memory pipes, real resource manager), several rounds per
 // case; a round = listener handler changes, a state of the dialer's knowledge about the
-// listener's protocols (public peerstore API), and 1..4 concurrent opens. Every handler
-// closure echoes (its registration id, the protocol its stream reports, the nonce).
+// listener's protocols (public peerstore API), and 1..4 concurrent opens, each with a
+// generated way of using the fresh stream (which operation comes first: Write, empty Write,
+// Read, empty Read, CloseWrite, Close, Write+CloseWrite). Every handler closure speaks
+// first (its registration id, the protocol its stream reports, a serial number of the
+// invocation), then echoes what it received (the nonce, or "nothing, then EOF").
 package c07
 
 import (
@@ -38,18 +41,27 @@ func TestMain(m *testing.M) {
 		"Each case builds two real hosts (BasicHost/BlankHost pairs, direct or limited connection) and runs 1..4 rounds; a round applies 0..3 "+
 			"SetStreamHandler / SetStreamHandlerMatch (prefix, path, semver, alias matchers; overlapping) / RemoveStreamHandler calls on the listener, "+
 			"puts the dialer's peerstore knowledge about the listener into a generated state (kept from identify, none, accurate, stale, over-optimistic, random) "+
-			"and performs 1..4 concurrent NewStream calls with ordered request lists of 1..3 IDs from a 10-ID universe with shared prefixes, each followed by a nonce echo. "+
-			"The oracle is a reference model of the listener's registrations written from the statement. "+
+			"and performs 1..4 concurrent NewStream calls with ordered request lists of 1..3 IDs from a 10-ID universe with shared prefixes. "+
+			"Each open also draws how the application uses the fresh stream, i.e. which operation comes first (on a lazily negotiated stream that operation "+
+			"has to carry the multistream handshake): Write(request), Write(nil), Read (server speaks first), Read into an empty buffer, CloseWrite with nothing sent, "+
+			"Close at once, Write then CloseWrite; every kind but Close then completes a greeting + echo exchange (handlers greet with registration id / protocol / "+
+			"invocation serial before reading, then echo the nonce or 'nothing, then EOF'). "+
+			"The oracle is a reference model of the listener's registrations written from the statement, applied on both sides: what the dialer read, and which "+
+			"handler invocations the listener recorded (every open on an accepted protocol reaches exactly one right handler whatever the first operation is; "+
+			"handlers hold their stream until the resource-scope audit is over). "+
 			"Non-trivial = some open took the optimistic (lazy) path with a protocol the listener does not accept (stale / over-optimistic knowledge), "+
 			"or a match-function registration (not an exact ID) answered, or handlers were changed after the first batch of opens. "+
-			"Distinct = distinct (pair kind, limited, handler history, knowledge states, request lists).",
+			"Distinct = distinct (pair kind, limited, handler history, knowledge states, request lists, first-operation kinds). "+
+			"Labels first-op:<kind>:<eager|lazy-accepted|lazy-refused> count the cases containing such an open.",
 		"go-multistream (select / lazy select / muxer) is a trusted dependency, exercised but not modelled",
 		"handler changes are applied between batches of opens, at quiescence (synctest.Wait), never concurrently with an open; "+
 			"so 'installed when the open started' is well defined",
 		"application payload starts with a 0x00 byte, which is never a valid multistream token: after a refused lazy negotiation the listener cannot "+
 			"mistake payload for a further protocol proposal",
 		"the in-memory transport replaces only the socket; security, muxer, swarm, hosts, identify and resource manager are the real ones",
-		"failure on first use is accepted as: the first Write may be accepted locally (lazy select does not wait), the first Read must return an error and no data",
+		"failure on first use is accepted as: a Write (also an empty one), CloseWrite or Close may be accepted locally (lazy select does not wait for the answer), "+
+			"the first Read (also one into an empty buffer) must return an error and no data; for a stream closed at once only 'no application handler runs' is demanded",
+		"not generated as first operations: Reset, CloseRead, deadline-only use; a stream the dialer resets may or may not reach a handler, the statement is silent there",
 	)
 	hx.Main(m)
 }
@@ -116,8 +128,38 @@ type lop struct {
 
 type openSpec struct {
 	Req   []protocol.ID `json:"req"`
+	Use   string        `json:"use"` // the dialer's first operation(s) on the fresh stream, see useKinds
 	nonce uint64
 }
+
+// How the dialer uses the stream NewStream returned. The statement quantifies over every
+// open; which stream operation the application performs first is part of "every open"
+// (a lazily negotiated stream sends its handshake as a side effect of that operation).
+const (
+	useWrite           = "write"            // Write(request); read greeting; read echo
+	useWriteEmpty      = "write-empty"      // Write(nil); then as write
+	useRead            = "read"             // read greeting (server speaks first); Write(request); read echo
+	useReadEmpty       = "read-empty"       // Read(zero-length buffer); then as write
+	useCloseWrite      = "closewrite"       // CloseWrite() with nothing sent; read greeting; read echo (of nothing)
+	useClose           = "close"            // Close() at once; nothing can be read
+	useWriteCloseWrite = "write-closewrite" // Write(request); CloseWrite(); read greeting; read echo
+)
+
+var useKinds = []string{useWrite, useWriteEmpty, useRead, useReadEmpty, useCloseWrite, useClose, useWriteCloseWrite}
+
+// drawn with these weights: the classic write-first exchange keeps 4/11 of the opens
+var useWeighted = []string{useWrite, useWrite, useWrite, useWrite, useWriteEmpty, useRead, useReadEmpty, useCloseWrite, useCloseWrite, useClose, useWriteCloseWrite}
+
+func (o openSpec) use() string {
+	if o.Use == "" {
+		return useWrite
+	}
+	return o.Use
+}
+
+// sendsRequest: the dialer writes its 9-byte request on the stream (everything but the
+// two kinds that close without having sent anything).
+func (o openSpec) sendsRequest() bool { return o.use() != useCloseWrite && o.use() != useClose }
 
 type round struct {
 	Ops      []lop         `json:"ops"`
@@ -400,7 +442,8 @@ func drawScenario(rt *rapid.T) *scenario {
 		r.Know = drawKnowledge(rt, m, r.KnowMode)
 		for j, k := 0, rapid.IntRange(1, 4).Draw(rt, "nopens"); j < k; j++ {
 			nonce++
-			r.Opens = append(r.Opens, openSpec{Req: drawRequest(rt, m, r.Know), nonce: mix(sc.Key + uint64(nonce))})
+			req := drawRequest(rt, m, r.Know)
+			r.Opens = append(r.Opens, openSpec{Req: req, Use: rapid.SampledFrom(useWeighted).Draw(rt, "use"), nonce: mix(sc.Key + uint64(nonce))})
 		}
 		sc.Rounds = append(sc.Rounds, r)
 	}
@@ -408,7 +451,9 @@ func drawScenario(rt *rapid.T) *scenario {
 }
 
 // ---------------------------------------------------------------------------
-// wire format of the echo
+// wire format. Dialer -> handler: one 9-byte request (or nothing). Handler -> dialer: two
+// length-prefixed JSON messages, the greeting (sent before the handler reads anything, so
+// that every order of the dialer's first operations terminates) and the echo.
 
 const payloadLen = 9 // 0x00 | nonce (8 bytes, big endian)
 
@@ -418,43 +463,59 @@ func payload(nonce uint64) []byte {
 	return b
 }
 
+// reply is the greeting: who is answering.
 type reply struct {
 	Reg    int    `json:"reg"`
 	Proto  string `json:"proto"`
-	Nonce  uint64 `json:"nonce"`
+	Inv    int    `json:"inv"`    // serial number of the handler invocation (unique per case)
 	Remote string `json:"remote"` // remote peer as seen by the handler's stream
 	Local  string `json:"local"`
 	Dir    int    `json:"dir"`
 }
 
+// echo is what the invocation received from the dialer before answering.
+type echo struct {
+	Inv   int    `json:"inv"`
+	N     int    `json:"n"`     // request bytes received (payloadLen, or fewer followed by EOF)
+	EOF   bool   `json:"eof"`   // the request ended by EOF before payloadLen bytes
+	Nonce uint64 `json:"nonce"` // valid when N == payloadLen
+}
+
 var errNoProgress = errors.New("Read returned (0, nil) repeatedly: neither data nor error")
 
-// readFull is io.ReadFull that gives up on a reader that keeps returning (0, nil).
-func readFull(r io.Reader, buf []byte) error {
+// readSome reads until buf is full or the reader fails; it gives up on a reader that keeps
+// returning (0, nil). io.EOF is returned as such (with the count read so far).
+func readSome(r io.Reader, buf []byte) (int, error) {
 	n, idle := 0, 0
 	for n < len(buf) {
 		k, err := r.Read(buf[n:])
 		n += k
 		if n >= len(buf) {
-			return nil
+			return n, nil
 		}
 		if err != nil {
-			return err
+			return n, err
 		}
 		if k == 0 {
 			idle++
 			if idle > 8 {
-				return errNoProgress
+				return n, errNoProgress
 			}
 		} else {
 			idle = 0
 		}
 	}
-	return nil
+	return n, nil
 }
 
-func writeReply(w io.Writer, r reply) error {
-	b, err := json.Marshal(r)
+// readFull is io.ReadFull on top of readSome.
+func readFull(r io.Reader, buf []byte) error {
+	_, err := readSome(r, buf)
+	return err
+}
+
+func writeMsg(w io.Writer, v any) error {
+	b, err := json.Marshal(v)
 	if err != nil {
 		return err
 	}
@@ -465,37 +526,46 @@ func writeReply(w io.Writer, r reply) error {
 	return err
 }
 
-func readReply(r io.Reader) (*reply, error) {
+func readMsg(r io.Reader, v any) error {
 	var l [2]byte
 	if err := readFull(r, l[:]); err != nil {
-		return nil, err
+		return err
 	}
 	b := make([]byte, binary.BigEndian.Uint16(l[:]))
 	if err := readFull(r, b); err != nil {
-		return nil, fmt.Errorf("reply body: %w", err)
+		return fmt.Errorf("message body: %w", err)
 	}
-	var rep reply
-	if err := json.Unmarshal(b, &rep); err != nil {
-		return nil, fmt.Errorf("reply is not what a handler of this harness writes: %q: %w", b, err)
+	dec := json.NewDecoder(strings.NewReader(string(b)))
+	dec.DisallowUnknownFields()
+	if err := dec.Decode(v); err != nil {
+		return fmt.Errorf("message is not what a handler of this harness writes here: %q: %w", b, err)
 	}
-	return &rep, nil
+	return nil
 }
 
 // ---------------------------------------------------------------------------
 // handler side
 
 type invocation struct {
+	serial   int
 	reg      int
 	proto    protocol.ID
 	remote   peer.ID
+	done     bool // the request was read (completely, or up to EOF)
+	got      int
+	eof      bool
 	nonce    uint64
 	gotNonce bool
 }
 
 type hlog struct {
-	mu  sync.Mutex
-	inv []*invocation
+	mu      sync.Mutex
+	inv     []*invocation
+	next    int
+	release chan struct{} // handlers keep their stream open until this is closed
 }
+
+func newHlog() *hlog { return &hlog{release: make(chan struct{})} }
 
 func (l *hlog) take() []*invocation {
 	l.mu.Lock()
@@ -505,29 +575,52 @@ func (l *hlog) take() []*invocation {
 	return out
 }
 
+// releaseAll lets every handler that is holding its stream finish; later invocations get
+// a fresh gate.
+func (l *hlog) releaseAll() {
+	l.mu.Lock()
+	defer l.mu.Unlock()
+	close(l.release)
+	l.release = make(chan struct{})
+}
+
 // handlerFor returns the application handler of registration r: it records that it ran
-// (before touching the stream), echoes and then waits for the dialer to finish.
+// (before touching the stream), greets, reads the request (9 bytes, or fewer up to EOF),
+// echoes what it got and then holds the stream until the harness has audited the batch.
 func handlerFor(r *reg, l *hlog) network.StreamHandler {
 	return func(s network.Stream) {
 		inv := &invocation{reg: r.id, proto: s.Protocol(), remote: s.Conn().RemotePeer()}
 		l.mu.Lock()
+		inv.serial = l.next
+		l.next++
 		l.inv = append(l.inv, inv)
+		release := l.release
 		l.mu.Unlock()
-		buf := make([]byte, payloadLen)
-		if err := readFull(s, buf); err != nil {
-			s.Reset()
-			return
-		}
-		nonce := binary.BigEndian.Uint64(buf[1:])
-		l.mu.Lock()
-		inv.nonce, inv.gotNonce = nonce, true
-		l.mu.Unlock()
-		err := writeReply(s, reply{Reg: r.id, Proto: string(s.Protocol()), Nonce: nonce,
+		err := writeMsg(s, reply{Reg: r.id, Proto: string(s.Protocol()), Inv: inv.serial,
 			Remote: s.Conn().RemotePeer().String(), Local: s.Conn().LocalPeer().String(), Dir: int(s.Stat().Direction)})
 		if err != nil {
 			s.Reset()
 			return
 		}
+		buf := make([]byte, payloadLen)
+		n, err := readSome(s, buf)
+		if err != nil && err != io.EOF {
+			s.Reset()
+			return
+		}
+		e := echo{Inv: inv.serial, N: n, EOF: err == io.EOF}
+		if n == payloadLen {
+			e.Nonce = binary.BigEndian.Uint64(buf[1:])
+		}
+		l.mu.Lock()
+		inv.done, inv.got, inv.eof = true, n, e.EOF
+		inv.nonce, inv.gotNonce = e.Nonce, n == payloadLen
+		l.mu.Unlock()
+		if err := writeMsg(s, e); err != nil {
+			s.Reset()
+			return
+		}
+		<-release
 		if _, err := io.Copy(io.Discard, s); err != nil {
 			s.Reset()
 			return
@@ -562,8 +655,78 @@ type openResult struct {
 	lazy      bool
 	useErr    error // first round trip failed
 	wroteOK   bool
+	closed    bool // use "close": Close() was the only operation
+	closeErr  error
 	rep       *reply
+	echo      *echo
 	protoPost protocol.ID
+	claimed   bool // an application handler invocation was attributed to this open
+}
+
+// useStream performs the generated usage of a fresh stream (see useKinds). A failure of
+// any operation before the echo has arrived is recorded as "first use failed".
+func useStream(s network.Stream, o openSpec, out *openResult) {
+	fail := func(stage string, err error) {
+		out.useErr = fmt.Errorf("%s: %w", stage, err)
+		s.Reset()
+	}
+	use := o.use()
+	if use == useClose {
+		out.closed, out.closeErr = true, s.Close()
+		return
+	}
+	s.SetDeadline(time.Now().Add(20 * time.Second))
+	var rep reply
+	greeted := false
+	switch use {
+	case useWriteEmpty:
+		if _, err := s.Write(nil); err != nil {
+			fail("empty write", err)
+			return
+		}
+	case useReadEmpty:
+		if _, err := s.Read(make([]byte, 0)); err != nil {
+			fail("read into an empty buffer", err)
+			return
+		}
+	case useRead:
+		if err := readMsg(s, &rep); err != nil {
+			fail("read", err)
+			return
+		}
+		greeted = true
+	case useCloseWrite:
+		if err := s.CloseWrite(); err != nil {
+			fail("closewrite", err)
+			return
+		}
+	}
+	if o.sendsRequest() {
+		if _, err := s.Write(payload(o.nonce)); err != nil {
+			fail("write", err)
+			return
+		}
+		out.wroteOK = true
+	}
+	if use == useWriteCloseWrite {
+		if err := s.CloseWrite(); err != nil {
+			fail("closewrite after write", err)
+			return
+		}
+	}
+	if !greeted {
+		if err := readMsg(s, &rep); err != nil {
+			fail("read", err)
+			return
+		}
+	}
+	var e echo
+	if err := readMsg(s, &e); err != nil {
+		fail("read", err)
+		return
+	}
+	s.SetDeadline(time.Time{})
+	out.rep, out.echo, out.protoPost = &rep, &e, s.Protocol()
 }
 
 type outcome struct {
@@ -606,7 +769,8 @@ func runScenario(f failer, sc *scenario) *outcome {
 	defer L.Close()
 
 	m := newModel()
-	hl := &hlog{}
+	hl := newHlog()
+	defer hl.releaseAll() // registered after the hosts: runs before they are closed, also on failure
 	for _, op := range sc.Init {
 		applyOp(L, op, m.apply(op), hl)
 	}
@@ -680,21 +844,7 @@ func runScenario(f failer, sc *scenario) *outcome {
 				}
 				out.s, out.proto = s, s.Protocol()
 				out.lazy = strings.Contains(fmt.Sprintf("%T", s), "streamWrapper")
-				s.SetDeadline(time.Now().Add(20 * time.Second))
-				if _, err := s.Write(payload(o.nonce)); err != nil {
-					out.useErr = fmt.Errorf("write: %w", err)
-					s.Reset()
-					return
-				}
-				out.wroteOK = true
-				rep, err := readReply(s)
-				if err != nil {
-					out.useErr = fmt.Errorf("read: %w", err)
-					s.Reset()
-					return
-				}
-				s.SetDeadline(time.Time{})
-				out.rep, out.protoPost = rep, s.Protocol()
+				useStream(s, o, out)
 			}(r.Opens[i], res[i])
 		}
 		wg.Wait()
@@ -704,8 +854,9 @@ func runScenario(f failer, sc *scenario) *outcome {
 		ctxt := func(i int) string {
 			return fmt.Sprintf("round %d open %d: request %v, dialer(%s) knowledge %v, listener(%s) registrations %s", ri, i, r.Opens[i].Req, sc.Dialer, known, sc.Listener, m.describe())
 		}
-		byNonce := map[uint64]int{}
-		open := map[protocol.ID]int{}
+		byInv := map[int]int{}                                       // handler invocation serial -> open it answered
+		openD, openL := map[protocol.ID]int{}, map[protocol.ID]int{} // streams open on the dialer / held by handlers
+		var closedOK []int                                           // opens closed at once on an accepted protocol
 		nOK := 0
 		for i, o := range r.Opens {
 			out := res[i]
@@ -767,16 +918,25 @@ func runScenario(f failer, sc *scenario) *outcome {
 			if !contains(o.Req, P) {
 				f.Fatalf("%s: NewStream returned a stream bound to %q, which was not requested", ctxt(i), P)
 			}
+			// the new stream's first operation x how its protocol was negotiated
+			switch {
+			case !out.lazy:
+				lab("first-op:" + o.use() + ":eager")
+			case m.accepted(P):
+				lab("first-op:" + o.use() + ":lazy-accepted")
+			default:
+				lab("first-op:" + o.use() + ":lazy-refused")
+			}
 			if out.useErr != nil {
 				lab("outcome:first-use-failed")
-				oc.trace = append(oc.trace, fmt.Sprintf("r%d.%d %v -> %s lazy=%v first use failed", ri, i, o.Req, P, out.lazy))
+				oc.trace = append(oc.trace, fmt.Sprintf("r%d.%d %v %s -> %s lazy=%v first use failed", ri, i, o.Req, o.use(), P, out.lazy))
 				if errors.Is(out.useErr, errNoProgress) {
 					f.Fatalf("%s: stream bound to %q: first use neither delivered data nor failed: %v", ctxt(i), P, out.useErr)
 				}
 				// the only excuse: the protocol was chosen optimistically from (wrong) earlier knowledge
 				if !(sc.Dialer == "basic" && inK[P] && !m.accepted(P)) {
 					f.Fatalf("%s: stream bound to %q failed on first use (%v) but that is not excused: believed-supported=%v, accepted-by-listener=%v",
-						ctxt(i), P, out.useErr, inK[P], m.accepted(P))
+						ctxt(i)+" ("+o.use()+")", P, out.useErr, inK[P], m.accepted(P))
 				}
 				oc.nontrivial = true
 				if r.KnowMode == "keep" {
@@ -789,13 +949,41 @@ func runScenario(f failer, sc *scenario) *outcome {
 				}
 				continue
 			}
-			// the echo round trip succeeded
+			if out.closed {
+				// Close() was the only operation: nothing can be observed on the dialer's side. What
+				// the statement still demands is on the listener's side (checked below): exactly the
+				// right handler runs if the listener accepts P, none otherwise. Close() may succeed
+				// locally even if an optimistic choice is refused.
+				lab("outcome:closed-at-once")
+				oc.trace = append(oc.trace, fmt.Sprintf("r%d.%d %v -> %s lazy=%v closed at once", ri, i, o.Req, P, out.lazy))
+				if !m.accepted(P) {
+					if !(sc.Dialer == "basic" && inK[P]) {
+						f.Fatalf("%s: NewStream returned a stream bound to %q, which the listener does not accept, and the dialer had no earlier knowledge that excuses an optimistic choice", ctxt(i), P)
+					}
+					oc.nontrivial = true
+					lab("lazy-refused:closed-before-use")
+					continue
+				}
+				if out.closeErr != nil {
+					f.Fatalf("%s: closing a healthy stream bound to %q failed: %v", ctxt(i), P, out.closeErr)
+				}
+				closedOK = append(closedOK, i)
+				continue
+			}
+			// the round trip succeeded
 			lab("outcome:ok")
 			nOK++
-			rep := out.rep
-			oc.trace = append(oc.trace, fmt.Sprintf("r%d.%d %v -> %s lazy=%v reg#%d", ri, i, o.Req, P, out.lazy, rep.Reg))
-			if rep.Nonce != o.nonce {
-				f.Fatalf("%s: wrote nonce %x on the stream, the reply carries %x: bytes went to another endpoint", ctxt(i), o.nonce, rep.Nonce)
+			rep, ech := out.rep, out.echo
+			oc.trace = append(oc.trace, fmt.Sprintf("r%d.%d %v %s -> %s lazy=%v reg#%d", ri, i, o.Req, o.use(), P, out.lazy, rep.Reg))
+			if ech.Inv != rep.Inv {
+				f.Fatalf("%s: the greeting on this stream came from handler invocation %d, the echo from invocation %d: bytes of two endpoints on one stream", ctxt(i), rep.Inv, ech.Inv)
+			}
+			if o.sendsRequest() {
+				if ech.N != payloadLen || ech.Nonce != o.nonce {
+					f.Fatalf("%s (%s): wrote %d bytes with nonce %x on the stream, the handler echoes %d bytes (eof=%v), nonce %x: bytes went to another endpoint or were lost", ctxt(i), o.use(), payloadLen, o.nonce, ech.N, ech.EOF, ech.Nonce)
+				}
+			} else if ech.N != 0 || !ech.EOF {
+				f.Fatalf("%s (%s): closed the stream for writing without sending anything, the handler received %d bytes (eof=%v)", ctxt(i), o.use(), ech.N, ech.EOF)
 			}
 			if rep.Reg < 0 || rep.Reg >= len(m.all) {
 				f.Fatalf("%s: reply names unknown registration #%d", ctxt(i), rep.Reg)
@@ -825,52 +1013,83 @@ func runScenario(f failer, sc *scenario) *outcome {
 			} else {
 				lab("answered-by-exact")
 			}
-			byNonce[o.nonce] = i
-			open[P]++
+			if j, dup := byInv[rep.Inv]; dup {
+				f.Fatalf("%s: answered by handler invocation %d, which also answered open %d of this batch", ctxt(i), rep.Inv, j)
+			}
+			byInv[rep.Inv] = i
+			openD[P]++
 		}
 		lab(fmt.Sprintf("concurrent-opens:%d", len(r.Opens)))
 
-		// exactly the handler: one invocation per successful open, none otherwise
+		// exactly the handler: one invocation per open that reached a handler (round trip
+		// succeeded, or closed at once on a protocol the listener accepts), none otherwise
 		invs := hl.take()
-		seen := map[uint64]int{}
 		for _, inv := range invs {
 			ar := m.all[inv.reg]
 			if !m.isInstalled(inv.reg) {
 				f.Fatalf("round %d: application handler %s ran (stream protocol %q) although it was removed before the batch started; listener registrations %s", ri, ar, inv.proto, m.describe())
 			}
-			if !inv.gotNonce {
-				f.Fatalf("round %d: application handler %s ran (stream protocol %q) without receiving a request: it ran for an open that failed; opens %s", ri, ar, inv.proto, describeBatch(r.Opens, res))
+			if inv.remote != D.ID() {
+				f.Fatalf("round %d: stream of handler %s has remote peer %s", ri, ar, inv.remote)
 			}
-			i, ok := byNonce[inv.nonce]
+			i, ok := byInv[inv.serial]
 			if !ok {
-				f.Fatalf("round %d: application handler %s ran with nonce %x, which belongs to no successful open of this batch; opens %s", ri, ar, inv.nonce, describeBatch(r.Opens, res))
-			}
-			seen[inv.nonce]++
-			if seen[inv.nonce] > 1 {
-				f.Fatalf("round %d open %d: more than one application handler ran for this open", ri, i)
-			}
-			if inv.reg != res[i].rep.Reg {
+				// not named by any reply the dialer read: it must belong to an open that was closed at
+				// once (same protocol; which of several equal ones is immaterial)
+				i = -1
+				for _, c := range closedOK {
+					if !res[c].claimed && res[c].proto == inv.proto {
+						i = c
+						break
+					}
+				}
+				if i < 0 {
+					f.Fatalf("round %d: application handler %s ran (invocation %d, stream protocol %q, received %d request bytes) for no open of this batch that reached a handler; opens %s",
+						ri, ar, inv.serial, inv.proto, inv.got, describeBatch(r.Opens, res))
+				}
+				if !ar.accepts(inv.proto) {
+					f.Fatalf("round %d open %d: stream bound to %q (closed at once) was handled by %s, which neither is registered for nor matches that protocol", ri, i, inv.proto, ar)
+				}
+			} else if inv.reg != res[i].rep.Reg {
 				f.Fatalf("round %d open %d: handler %s ran but the reply came from #%d", ri, i, ar, res[i].rep.Reg)
 			}
+			if res[i].claimed {
+				f.Fatalf("round %d open %d: more than one application handler ran for this open", ri, i)
+			}
+			res[i].claimed = true
 			if inv.proto != res[i].proto {
 				f.Fatalf("round %d open %d: handler %s was invoked on a stream reporting %q, dialer's stream reports %q", ri, i, ar, inv.proto, res[i].proto)
 			}
-			if inv.remote != D.ID() {
-				f.Fatalf("round %d open %d: handler's stream has remote peer %s", ri, i, inv.remote)
+			// what the handler itself recorded (not only what it wrote back)
+			wantN := 0
+			if r.Opens[i].sendsRequest() {
+				wantN = payloadLen
+			}
+			if !inv.done || inv.got != wantN || (wantN == payloadLen && inv.nonce != r.Opens[i].nonce) || (wantN == 0 && !inv.eof) {
+				f.Fatalf("round %d open %d (%s): handler %s received %d request bytes (complete=%v eof=%v nonce %x), the dialer sent %d (nonce %x)",
+					ri, i, r.Opens[i].use(), ar, inv.got, inv.done, inv.eof, inv.nonce, wantN, r.Opens[i].nonce)
+			}
+			openL[inv.proto]++ // the handler holds its stream until the audit below is over
+		}
+		for i, out := range res {
+			if (out.rep != nil || (out.closed && m.accepted(out.proto))) && !out.claimed {
+				f.Fatalf("round %d open %d (%s): stream bound to %q, which the listener accepts, but no application handler ran for it; opens %s",
+					ri, i, r.Opens[i].use(), out.proto, describeBatch(r.Opens, res))
 			}
 		}
-		if len(invs) != nOK {
-			f.Fatalf("round %d: %d application handler invocations for %d successful opens; opens %s", ri, len(invs), nOK, describeBatch(r.Opens, res))
+		if len(invs) != nOK+len(closedOK) {
+			f.Fatalf("round %d: %d application handler invocations for %d opens that reached a handler; opens %s", ri, len(invs), nOK+len(closedOK), describeBatch(r.Opens, res))
 		}
 
-		// charged to the negotiated protocol's scope on both sides while open ...
+		// charged to the negotiated protocol's scope on both sides while open (dialer: until it
+		// closes; listener: until the handler, which is holding the stream, closes) ...
 		stD, stL := viewStats(f, D), viewStats(f, L)
 		for _, id := range reqUniverse {
-			if got := stD[id].out - base[0][id].out; got != open[id] {
-				f.Fatalf("round %d: dialer's protocol scope %q counts %d outbound streams above baseline, %d streams bound to it are open; opens %s", ri, id, got, open[id], describeBatch(r.Opens, res))
+			if got := stD[id].out - base[0][id].out; got != openD[id] {
+				f.Fatalf("round %d: dialer's protocol scope %q counts %d outbound streams above baseline, %d streams bound to it are open; opens %s", ri, id, got, openD[id], describeBatch(r.Opens, res))
 			}
-			if got := stL[id].in - base[1][id].in; got != open[id] {
-				f.Fatalf("round %d: listener's protocol scope %q counts %d inbound streams above baseline, %d streams bound to it are open; opens %s", ri, id, got, open[id], describeBatch(r.Opens, res))
+			if got := stL[id].in - base[1][id].in; got != openL[id] {
+				f.Fatalf("round %d: listener's protocol scope %q counts %d inbound streams above baseline, %d streams bound to it are held open by their handlers; opens %s", ri, id, got, openL[id], describeBatch(r.Opens, res))
 			}
 			if stD[id].in != base[0][id].in || stL[id].out != base[1][id].out {
 				f.Fatalf("round %d: protocol scope %q charged in the wrong direction: dialer inbound %d, listener outbound %d", ri, id, stD[id].in, stL[id].out)
@@ -884,6 +1103,7 @@ func runScenario(f failer, sc *scenario) *outcome {
 				}
 			}
 		}
+		hl.releaseAll()
 		synctest.Wait()
 		stD, stL = viewStats(f, D), viewStats(f, L)
 		for _, id := range reqUniverse {
@@ -906,9 +1126,11 @@ func describeBatch(opens []openSpec, res []*openResult) string {
 		case out.err != nil:
 			s = append(s, fmt.Sprintf("%v->NewStream error", o.Req))
 		case out.useErr != nil:
-			s = append(s, fmt.Sprintf("%v->%q lazy=%v first use failed (%v)", o.Req, out.proto, out.lazy, out.useErr))
+			s = append(s, fmt.Sprintf("%v %s->%q lazy=%v first use failed (%v)", o.Req, o.use(), out.proto, out.lazy, out.useErr))
+		case out.closed:
+			s = append(s, fmt.Sprintf("%v %s->%q lazy=%v closed at once (%v)", o.Req, o.use(), out.proto, out.lazy, out.closeErr))
 		default:
-			s = append(s, fmt.Sprintf("%v->%q lazy=%v answered by #%d nonce %x", o.Req, out.proto, out.lazy, out.rep.Reg, o.nonce))
+			s = append(s, fmt.Sprintf("%v %s->%q lazy=%v answered by #%d invocation %d nonce %x", o.Req, o.use(), out.proto, out.lazy, out.rep.Reg, out.rep.Inv, o.nonce))
 		}
 	}
 	return "{" + strings.Join(s, "; ") + "}"
@@ -952,8 +1174,9 @@ func TestNegotiation(t *testing.T) {
 // the random search): every listener configuration of a fixed list (no handler, exact,
 // prefix / path / semver / alias matchers, overlapping pairs) x every ordered request over
 // {X, Y} x every knowledge state over {X, Y} (+ "as identify left it") x the four host
-// pairings; each scenario opens once with the handlers installed and once more after all
-// of them were removed (so remembered knowledge becomes stale).
+// pairings x every kind of first operation on the fresh stream (useKinds); each scenario
+// opens once with the handlers installed and once more after all of them were removed (so
+// remembered knowledge becomes stale).
 func TestSmallExhaustive(t *testing.T) {
 	name := t.Name()
 	const X, Y = protocol.ID("/a/1.0.0"), protocol.ID("/a/1.1.0")
@@ -983,33 +1206,35 @@ func TestSmallExhaustive(t *testing.T) {
 		for _, req := range reqs {
 			for _, kn := range knows {
 				for _, pr := range pairs {
-					idx++
-					if !hx.Mine(idx) {
-						continue
-					}
-					sc := &scenario{Dialer: pr[0], Listener: pr[1], Limited: idx%5 == 0, Init: cfg, Key: uint64(idx)}
-					var removes []lop
-					seen := map[protocol.ID]bool{}
-					for _, op := range cfg {
-						if !seen[op.Pid] {
-							seen[op.Pid] = true
-							removes = append(removes, lop{Op: "remove", Pid: op.Pid})
+					for _, use := range useKinds {
+						idx++
+						if !hx.Mine(idx) {
+							continue
 						}
-					}
-					sc.Rounds = []round{
-						{KnowMode: kn.mode, Know: kn.ids, Opens: []openSpec{{Req: req, nonce: mix(uint64(idx) * 2)}}},
-						{Ops: removes, KnowMode: kn.mode, Know: kn.ids, Opens: []openSpec{{Req: req, nonce: mix(uint64(idx)*2 + 1)}}},
-					}
-					var oc *outcome
-					synctest.Test(t, func(t *testing.T) {
-						oc = runScenario(t, sc)
-					})
-					if oc == nil {
-						t.Fatalf("scenario %s failed", sc.fingerprint())
-					}
-					stats.CaseEnumerated(name, oc.nontrivial, sortedLabels(oc.labels, "pair:"+pr[0]+"->"+pr[1], fmt.Sprintf("config:%d", ci))...)
-					if stats.WantSample(name) {
-						stats.Sample(name, map[string]any{"scenario": sc, "trace": oc.trace})
+						sc := &scenario{Dialer: pr[0], Listener: pr[1], Limited: idx%5 == 0, Init: cfg, Key: uint64(idx)}
+						var removes []lop
+						seen := map[protocol.ID]bool{}
+						for _, op := range cfg {
+							if !seen[op.Pid] {
+								seen[op.Pid] = true
+								removes = append(removes, lop{Op: "remove", Pid: op.Pid})
+							}
+						}
+						sc.Rounds = []round{
+							{KnowMode: kn.mode, Know: kn.ids, Opens: []openSpec{{Req: req, Use: use, nonce: mix(uint64(idx) * 2)}}},
+							{Ops: removes, KnowMode: kn.mode, Know: kn.ids, Opens: []openSpec{{Req: req, Use: use, nonce: mix(uint64(idx)*2 + 1)}}},
+						}
+						var oc *outcome
+						synctest.Test(t, func(t *testing.T) {
+							oc = runScenario(t, sc)
+						})
+						if oc == nil {
+							t.Fatalf("scenario %s failed", sc.fingerprint())
+						}
+						stats.CaseEnumerated(name, oc.nontrivial, sortedLabels(oc.labels, "pair:"+pr[0]+"->"+pr[1], fmt.Sprintf("config:%d", ci))...)
+						if stats.WantSample(name) {
+							stats.Sample(name, map[string]any{"scenario": sc, "trace": oc.trace})
+						}
 					}
 				}
 			}
